@@ -15,6 +15,7 @@ import (
 // H executes op lines against the real ecs package and prints the canonical trace.
 type H struct {
 	w        *ecs.World
+	cscratch []ecs.Comp // one buffer for every component list handed to a variadic API (a client may do the same)
 	u        ecs.Unsafe
 	out      *bufio.Writer
 	lineNo   int
@@ -820,3 +821,32 @@ func (h *H) provoke(e ecs.Entity) {
 }
 
 var _ = unsafe.Pointer(nil)
+
+// scratchComps builds the component list in a buffer that is shared by all calls: For/With/Without/
+// Removes take variadic lists and must not keep the caller's slice.  After the call returns the harness
+// overwrites the buffer with the next list — with a correct implementation that is invisible.
+func (h *H) scratchComps(cs []*regComp) []ecs.Comp {
+	if cap(h.cscratch) < 16 {
+		h.cscratch = make([]ecs.Comp, 0, 16)
+	}
+	out := h.cscratch[:0]
+	for _, c := range cs {
+		out = append(out, c.info.c)
+	}
+	return out
+}
+
+// poisonComps overwrites the shared buffer with other components (all registered ones, highest ID first)
+func (h *H) poisonComps() {
+	var ids []int
+	for id := range h.compByID {
+		ids = append(ids, int(id))
+	}
+	sort.Sort(sort.Reverse(sort.IntSlice(ids)))
+	buf := h.cscratch[:cap(h.cscratch)]
+	for i := range buf {
+		if len(ids) > 0 {
+			buf[i] = h.compByID[uint8(ids[i%len(ids)])].info.c
+		}
+	}
+}
